@@ -19,6 +19,7 @@ Cat(s, e) ==
     [] e.ev = "OutConnect" -> "prog"
     [] e.ev = "Open" /\ e.kind = "ok" -> "prog"
     [] e.ev = "Keepalive" -> "prog"
+    [] e.ev = "Update" /\ e.n = 1 -> IF s.st = "Established" /\ CId(e) = s.cur THEN "prog" ELSE "msg"
     [] e.ev = "Enable" -> IF s.admin # "Up" THEN "prog" ELSE "admin"
     [] e.ev = "Tick" -> IF e.d \in {1, 2, 3, 5} THEN "tick" ELSE "longtick"
     [] e.ev \in AdminEvents -> "admin"
